@@ -100,7 +100,7 @@ CHECKS = {
         text='Bounded exhaustive model checking: 65 ordered advertised-method lists x 8 cookie-file conditions (absent, '
              'directory, 0/31/33 bytes, valid, valid at a path needing unescaping, no COOKIEFILE) x 6 password providers (none, '
              'value, empty, Deferred, coroutine, raising) x every server behaviour within 1 (quick) / 2 (thorough) deviations '
-             'from a correct Tor at each of PROTOCOLINFO, AUTHCHALLENGE (7 answers), AUTHENTICATE, and each bootstrap query; '
+             'from a correct Tor at each of PROTOCOLINFO, AUTHCHALLENGE (10 answers incl. empty, truncated and over-long hashes), AUTHENTICATE, and each bootstrap query; '
              'plus nonce freshness over three successive connections.',
         note='Trusted: refs/safecookie.py, the scripted reference server in props/c04.py, os.urandom replaced by a known '
              'counter source, real cookie files under /verif/.work.'),
